@@ -184,9 +184,29 @@ def check_c17(ctx):
             recs.append({"enc": enc, "ok": bool(t["ok"]), "isstr": bool(t["isstr"]), "path": t["path"], "rawLF": "\n" in s, "rawCR": "\r" in s,
                          "cs": cs if named else [], "raw": sorted(raw_classes(s, v) - {"ascii", "empty"}) if named else [], "eqOrjson": eq["orjson"], "eqStdlib": eq["stdlib"], "named": named,
                          "valuePreview": json.dumps(v, ensure_ascii=True)[:80]})
+    # one NDJSON frame, as the library's own line reader sees it: every text encoded by either
+    # back end, written as a line, comes out of the real stdio reader as exactly one message
+    from harness.drivers import stdio_drv
+    frame_vals = [v for v in vals if not isinstance(v, float)][: 600 if quick else 4000]
+    wrapped = [{"jsonrpc": "2.0", "method": "notifications/message", "params": {"i": i, "v": v}} for i, v in enumerate(frame_vals)]
+    wtrees = [tag(w) for w in wrapped]
+    for enc, no in (("orjson", False), ("stdlib", True)):
+        enc_res = worker(no, {"op": "encode", "values": wtrees})
+        lines = ["".join(chr(c) for c in t["text"]) for t in enc_res]
+        delivered = stdio_drv.run_frames(lines)
+        by_i = {}
+        for d in delivered:
+            p_ = d.get("params") if isinstance(d, dict) else None
+            if isinstance(p_, dict) and isinstance(p_.get("i"), int):
+                by_i.setdefault(p_["i"], []).append(p_)
+        for i, w in enumerate(wrapped):
+            got = by_i.get(i, [])
+            ok = len(got) == 1 and tag(got[0]) == tag(w["params"])
+            recs.append({"enc": enc, "ok": True, "isstr": True, "path": enc_res[i]["path"], "rawLF": not ok, "rawCR": False, "cs": [], "raw": [], "eqOrjson": True, "eqStdlib": True, "named": False,
+                         "valuePreview": "frame:" + json.dumps(w["params"]["v"], ensure_ascii=True)[:70], "frame": True})
     slim = []
     for x in recs:
-        y = {k: v for k, v in x.items() if k not in ("valuePreview", "named")}
+        y = {k: v for k, v in x.items() if k not in ("valuePreview", "named", "frame")}
         if not x["named"]:
             y["cs"] = []
             y["raw"] = []
@@ -210,6 +230,9 @@ def check_c17(ctx):
                 drift += 1
                 if drift <= 3:
                     ctx.note("model drift %s: %s" % (c, json.dumps(recs[i])[:300]))
+                continue
+            if recs[i].get("frame"):
+                ctx.report("clause=OneFrameThroughReader enc=%s" % recs[i]["enc"], json.dumps(recs[i])[:300], {"kind": "codec_frame", "preview": recs[i]["valuePreview"], "enc": recs[i]["enc"], "clause": c})
                 continue
             ctx.report("clause=%s enc=%s" % (c, recs[i]["enc"]), json.dumps(recs[i])[:300], {"kind": "codec_value", "tree": trees[i % n], "enc": recs[i]["enc"], "clause": c})
     ctx.cov["drift"] = drift
